@@ -72,7 +72,10 @@ func Mv(r *Root, src, dst string) error {
 		return err
 	}
 
-	if srcDir.name == dstDir.name && srcFname == dstFname {
+	// Moving an entry onto itself: it was just re-added above, so it must not
+	// be unlinked. Compare the directories themselves, not only their names:
+	// /a/x and /b/x are different directories.
+	if srcDir.Path() == dstDir.Path() && srcFname == dstFname {
 		return nil
 	}
 
